@@ -415,8 +415,56 @@ func (x *Exec) globalStructFacts(st *State) {
 	}
 }
 
+// errGlobalFacts: what the package initialiser says about the standard
+// error values (dynamic type *WireError, their code and message).
+func (x *Exec) errGlobalFacts(st *State) {
+	if x.te.StrSort != "String" {
+		return
+	}
+	var gs []*ssa.Global
+	for g := range x.L.errGlobals {
+		gs = append(gs, g)
+	}
+	sort.Slice(gs, func(i, j int) bool { return gs[i].Name() < gs[j].Name() })
+	strT := types.Typ[types.String]
+	for _, g := range gs {
+		e := x.L.errGlobals[g]
+		key := x.globalKey(g)
+		if !x.L.immutableGlobal[key] {
+			continue
+		}
+		gt := x.heapGet(st, key, "Iface")
+		T := lookupType(x.L, "ociregistry", "WireError")
+		if T == nil {
+			continue
+		}
+		st.assume(Term{fmt.Sprintf("(= (itag %s) %d)", gt.S, x.te.TagOf(types.NewPointer(T))), "Bool"})
+		ref := Term{fmt.Sprintf("(ival %s)", gt.S), "Int"}
+		st.assume(Gt(ref, IntLit(0)))
+		si := x.te.Struct(T)
+		for i, fn := range si.FNames {
+			k, sort := x.fieldComp(si, i)
+			switch fn {
+			case "Code_":
+				st.assume(Eq(Select(x.heapGet(st, k, sort), ref), StrLit(e.Code)))
+			case "Message":
+				st.assume(Eq(Select(x.heapGet(st, k, sort), ref), StrLit(e.Msg)))
+			}
+		}
+		x.privateRefs = append(x.privateRefs, privateRef{ref, T})
+		if x.cs.IfacePure["Code"] {
+			c := x.uninterp(st, "im_Code", []Val{{T: gt, Typ: g.Type().(*types.Pointer).Elem()}}, strT)
+			st.assume(Eq(c.T, StrLit(e.Code)))
+		}
+	}
+	if len(gs) > 0 {
+		x.funcsUsed["struct:standard error values (dynamic type, code, message) read off the package initialiser; the objects are never modified"] = true
+	}
+}
+
 func (x *Exec) sentinelFacts(st *State) {
 	x.globalStructFacts(st)
+	x.errGlobalFacts(st)
 	var errs []Term
 	for _, sp := range x.L.spkgs {
 		if !x.L.isRepoPkg(sp.Pkg) {
@@ -535,6 +583,21 @@ func (x *Exec) exitObligations(fr *Frame, st *State, rs []Val, oldSt *State, spe
 		ref := k[len("fresh:"):]
 		T, ok := x.freshTypes[ref]
 		if !ok {
+			continue
+		}
+		// only objects handed out through the results
+		escapes := false
+		for _, r := range rs {
+			if strings.Contains(r.T.S, ref) {
+				escapes = true
+			}
+			for _, t := range r.Tup {
+				if strings.Contains(t.T.S, ref) {
+					escapes = true
+				}
+			}
+		}
+		if !escapes {
 			continue
 		}
 		n, ok := T.(*types.Named)
